@@ -115,6 +115,8 @@ func c06FS(root string) {
 		"run/main.go":                              "package main\n",
 		// the same package checked out under two GOPATH entries
 		"gp2/src/example.com/a/a.go": "package a\n\n// second checkout\n",
+		// a package that only the first GOPATH entry has
+		"gp1/src/example.com/only1/o.go": "package only1\n",
 		// a go.mod without a module line between a file and its real module root
 		"m/sub/deep/tools/go.mod":   "// no module directive here\n",
 		"m/sub/deep/tools/gen/g.go": "package gen\n",
@@ -169,6 +171,10 @@ func c06Inputs(root string) []c06Input {
 	add("fs-roots-unresolvable", g(1, "running", "nosuch.F", "", "/remote/go/src/nosuch/zz.go", 3)+g(2, "select", "example.com/none.N", "", "/r1/src/example.com/none/none.go", 3)+g(3, "select", "example.com/none2.N", "", "/remote/gp/src/example.com/none2/none.go", 4)+g(4, "select", "example.com/m.Missing", "", R+"/m/missing.go", 4), fsOpts("gp1", "gp2"), true)
 	add("fs-same-file-two-gopaths", g(1, "running", "example.com/a.A", "0x1", "/r1/src/example.com/a/a.go", 3)+g(2, "select", "example.com/b.B", "", "/r1/src/example.com/b/b.go", 4), fsOpts("gp1", "gp2"), true)
 	add("fs-same-file-two-gopaths-reversed", g(1, "running", "example.com/a.A", "0x1", "/r1/src/example.com/a/a.go", 3)+g(2, "select", "example.com/b.B", "", "/r1/src/example.com/b/b.go", 4), fsOpts("gp2", "gp1"), true)
+	// three remote roots: the first two each resolve to one GOPATH entry, the package
+	// under the third exists in both entries
+	add("fs-three-remote-roots", g(1, "running", "example.com/only1.O", "0x1", "/rA/src/example.com/only1/o.go", 3)+g(2, "select", "example.com/b.B", "", "/rB/src/example.com/b/b.go", 4)+g(3, "select", "example.com/a.A", "0x2", "/rC/src/example.com/a/a.go", 5), fsOpts("gp1", "gp2"), true)
+	add("fs-three-remote-roots-reversed", g(1, "running", "example.com/only1.O", "0x1", "/rA/src/example.com/only1/o.go", 3)+g(2, "select", "example.com/b.B", "", "/rB/src/example.com/b/b.go", 4)+g(3, "select", "example.com/a.A", "0x2", "/rC/src/example.com/a/a.go", 5), fsOpts("gp2", "gp1"), true)
 	add("fs-gomod-without-module-line", g(1, "running", "example.com/m/sub/deep/tools/gen.G", "0x1", R+"/m/sub/deep/tools/gen/g.go", 3)+g(2, "select", "example.com/m/sub/deep.Z", "0x3", R+"/m/sub/deep/z.go", 12), fsOpts("gp1"), true)
 	add("fs-goroot-other-remote", g(1, "running", "fmt.Println", "", "/other/go/src/fmt/print.go", 3)+g(2, "select", "nosuch.F", "", "/remote/go/src/nosuch/zz.go", 3)+g(3, "select", "example.com/a.A", "", "/r2/src/example.com/a/a.go", 3), fsOpts("gp1", "gp2"), true)
 	return in
